@@ -15,7 +15,7 @@ use std::{
 };
 
 use mpd_protocol::{AsyncConnection, Connection, MpdProtocolError};
-use tokio::io::{AsyncRead, ReadBuf};
+use tokio::io::{AsyncRead, AsyncWrite, ReadBuf};
 
 use crate::{
     common::catch,
@@ -68,6 +68,9 @@ pub struct Script<'a> {
     /// like cancel_mask, but the future is dropped TWICE in a row before read number j (the second
     /// receive() call gets no new data either)
     pub cancel_twice_mask: u64,
+    /// async only: after every cancellation the caller sends a command (`noidle`) on the connection
+    /// before it calls `receive()` again (what the client's loop does when a request wins the select)
+    pub send_after_cancel: bool,
 }
 
 #[derive(Default)]
@@ -239,7 +242,7 @@ fn drive_cancellable<F: Future>(fut: F, st: &ReaderState) -> Driven<F::Output> {
 
 /// A connection that has completed the handshake on its own greeting read.
 fn greeting_script() -> Script<'static> {
-    Script { stream: GREETING, cuts: &[], end: EndAnswer::Eof, pending_mask: 0, cancel_mask: 0, cancel_twice_mask: 0 }
+    Script { stream: GREETING, cuts: &[], end: EndAnswer::Eof, pending_mask: 0, cancel_mask: 0, cancel_twice_mask: 0, send_after_cancel: false }
 }
 
 /// Feed `script.stream` (after a handshake with a fixed greeting delivered in its own read) and
@@ -290,6 +293,19 @@ impl<R: AsyncRead + Unpin> AsyncRead for Phased<'_, R> {
     }
 }
 
+/// writes are accepted and discarded
+impl<R: Unpin> AsyncWrite for Phased<'_, R> {
+    fn poll_write(self: Pin<&mut Self>, _cx: &mut Context<'_>, buf: &[u8]) -> Poll<io::Result<usize>> {
+        Poll::Ready(Ok(buf.len()))
+    }
+    fn poll_flush(self: Pin<&mut Self>, _cx: &mut Context<'_>) -> Poll<io::Result<()>> {
+        Poll::Ready(Ok(()))
+    }
+    fn poll_shutdown(self: Pin<&mut Self>, _cx: &mut Context<'_>) -> Poll<io::Result<()>> {
+        Poll::Ready(Ok(()))
+    }
+}
+
 fn run_session_inner(flavor: Flavor, script: &Script<'_>, st: &ReaderState, max_responses: usize, probe_after_end: bool) -> Session {
     let _ = greeting_script;
     let mut responses = Vec::new();
@@ -327,7 +343,16 @@ fn run_session_inner(flavor: Flavor, script: &Script<'_>, st: &ReaderState, max_
             let end = loop {
                 match drive_cancellable(conn.receive(), st) {
                     Driven::Hang => break Terminal::Hang,
-                    Driven::Cancelled => continue,
+                    Driven::Cancelled => {
+                        if script.send_after_cancel {
+                            match drive(conn.send(mpd_protocol::Command::new("noidle"))) {
+                                Ok(Ok(())) => {}
+                                Ok(Err(e)) => break classify(&e),
+                                Err(t) => break t,
+                            }
+                        }
+                        continue;
+                    }
                     Driven::Done(Ok(Some(r))) => {
                         if responses.len() >= max_responses {
                             break Terminal::TooMany;
